@@ -981,7 +981,9 @@ def run_opt_case(ck, case):
     # standard errors recomputed from result.jacobian, per label
     rmse = result.root_mean_square_error
     _, sv, rsv = np.linalg.svd(jac, full_matrices=False)
-    m = sv**2 > np.finfo(float).eps
+    # pseudo-inverse of J^T J over the numerical range of J (rank decided relative to the largest singular value, the
+    # convention of numpy.linalg.matrix_rank; C13 states and checks the Penrose conditions — here only ordering matters)
+    m = sv > np.finfo(float).eps * max(jac.shape) * (sv.max() if sv.size else 0.0)
     cov2 = (rsv[m].T / sv[m] ** 2) @ rsv[m]
     if not np.allclose(cov, cov2, rtol=1e-6, atol=1e-12 * max(1.0, np.abs(cov2).max())):
         return viol("covariance", "covariance_matrix is not pinv(J^T J) of result.jacobian")
